@@ -44,19 +44,19 @@ type config struct {
 
 var configs = map[string]config{
 	"C01": {pkg: "./checks/c01", shardsQ: 4, shardsT: 16, level: "exploration"},
-	"C02": {pkg: "./checks/c02", shardsQ: 8, shardsT: 16, level: "exploration"},
+	"C02": {pkg: "./checks/c02", shardsQ: 8, shardsT: 16, level: "exploration", fuzz: []fuzzTarget{{"FuzzReply", 120}}},
 	"C03": {pkg: "./checks/c03", shardsQ: 4, shardsT: 16, level: "fault_enumeration"},
 	"C04": {pkg: "./checks/c04", shardsQ: 4, shardsT: 16, level: "exploration", fuzz: []fuzzTarget{{"FuzzUnmarshalAll", 90}, {"FuzzAPIReply", 90}, {"FuzzListenHandler", 60}}},
 	"C05": {pkg: "./checks/c05", shardsQ: 4, shardsT: 16, level: "exploration", fuzz: []fuzzTarget{{"FuzzRoundTrip", 120}}},
 	"C06": {pkg: "./checks/c06", shardsQ: 8, shardsT: 16, level: "exploration"},
-	"C07": {pkg: "./checks/c07", shardsQ: 4, shardsT: 16, level: "exploration"},
+	"C07": {pkg: "./checks/c07", shardsQ: 4, shardsT: 16, level: "exploration", fuzz: []fuzzTarget{{"FuzzArgs", 90}}},
 	"C08": {pkg: "./checks/c08", race: true, shardsQ: 4, shardsT: 12, level: "exploration"},
 	"C09": {pkg: "./checks/c09", shardsQ: 4, shardsT: 12, level: "fault_enumeration"},
 	"C10": {pkg: "./checks/c10", shardsQ: 4, shardsT: 12, level: "exploration"},
 	"C11": {pkg: "./checks/c11", shardsQ: 4, shardsT: 12, level: "exploration"},
 	"C12": {pkg: "./checks/c12", shardsQ: 2, shardsT: 16, level: "exploration", fuzz: []fuzzTarget{{"FuzzBCD", 90}}},
 	"C13": {pkg: "./checks/c13", shardsQ: 8, shardsT: 16, level: "exploration"},
-	"C14": {pkg: "./checks/c14", shardsQ: 4, shardsT: 16, level: "exploration"},
+	"C14": {pkg: "./checks/c14", shardsQ: 4, shardsT: 16, level: "exploration", fuzz: []fuzzTarget{{"FuzzText", 120}}},
 	"C15": {pkg: "./checks/c15", shardsQ: 4, shardsT: 16, level: "exploration", fuzz: []fuzzTarget{{"FuzzAddr", 90}}},
 	"C16": {pkg: "./checks/c16", shardsQ: 4, shardsT: 16, level: "exploration"},
 	"C17": {pkg: "./checks/c17", shardsQ: 4, shardsT: 16, level: "exploration"},
